@@ -61,7 +61,7 @@ def _gen_cfg(S, want_rt=None):
                            '[^P]', '[A-G]', '[^KR]$', '(?<=K).',
                            # one capturing group that may be empty or not take part in a match
                            'S(P)?', '(S)|T', '(K)?R', 'E(D)*']),
-                   S.pick([-18.0, -17.5, -98.0, -10.25, 5.5, -18.01056, -17.02655, -18.01056])]
+                   S.pick([-18.0, -17.5, -98.0, -10.25, 5.5, -18.01056, -17.02655, -18.01056, -1e-10, 5e-12])]   # incl. tiny, non-zero
                   for _ in range(S.randint(1, 2))]
         if len(custom) == 2 and custom[0][1] == custom[1][1]:
             custom = custom[:1]
@@ -118,6 +118,8 @@ def gen_plan(S, index, tier):
     pool = {'A0': {'kind': 'ann', 'via': S.pick(['parse', 'create']), 'spec': sp}}
     if pool['A0']['via'] == 'create':
         pool['A0']['order'] = SP.gen_order(S, sp)
+    if not sp['isotope'] and S.coin(0.12):
+        header['emptied_isotope_list'] = True      # the label list is present but empty (its last label was removed)
     peps = ['A0']
     if S.coin(0.4) and not poisoned:
         # a sibling peptide with the SAME residues and other modifications, fragmented alongside (state keyed on the
@@ -323,6 +325,13 @@ def execute(plan):
         out.probes['build_failed'] += 1
         out.record(['build_failed', N.norm_exc(e)])
         return out
+    if hdr.get('emptied_isotope_list'):
+        for pp in run.peps.values():
+            if not pp['a'].isotope_mods:
+                pp['a'].isotope_mods = []
+                if pp['a'].isotope_mods is not None:
+                    out.probes['label_list_present_but_empty'] += 1
+                pp['nf'] = N.norm_ann(pp['a'])
     run.losses = [tuple(x) for x in plan.get('shared_losses', [])]
     run.losses_nf = N.norm(run.losses)
     run.own = {'ion_types': [], 'charges': [], 'isotopes': []}
